@@ -21,6 +21,7 @@ package main
 
 import (
 	"go/constant"
+	"go/token"
 	"go/types"
 
 	"golang.org/x/tools/go/ssa"
@@ -578,8 +579,14 @@ func paramCell(a *ssa.Alloc) *ssa.Parameter {
 			par = p
 		case *ssa.UnOp:
 		case *ssa.MakeClosure:
-			if fn, ok := x.Fn.(*ssa.Function); !ok || !readsFreeVarsOnly(fn) {
+			fn, ok := x.Fn.(*ssa.Function)
+			if !ok {
 				return nil
+			}
+			for i, b := range x.Bindings {
+				if b == ssa.Value(a) && (i >= len(fn.FreeVars) || !freeVarOnlyLoaded(fn.FreeVars[i], 0)) {
+					return nil
+				}
 			}
 		case *ssa.DebugRef:
 		default:
@@ -590,4 +597,39 @@ func paramCell(a *ssa.Alloc) *ssa.Parameter {
 		return nil
 	}
 	return par
+}
+
+// freeVarOnlyLoaded: the cell a closure captured is only ever loaded there (and in the closures
+// it is passed on to): nothing stores to the cell itself or lets its address escape. Storing
+// through the value it holds (`r.field = …` with r a captured pointer) leaves the cell alone.
+func freeVarOnlyLoaded(fv *ssa.FreeVar, depth int) bool {
+	if depth > 3 {
+		return false
+	}
+	refs := fv.Referrers()
+	if refs == nil {
+		return true
+	}
+	for _, rf := range *refs {
+		switch x := rf.(type) {
+		case *ssa.UnOp:
+			if x.Op != token.MUL {
+				return false
+			}
+		case *ssa.DebugRef:
+		case *ssa.MakeClosure:
+			fn, ok := x.Fn.(*ssa.Function)
+			if !ok {
+				return false
+			}
+			for i, b := range x.Bindings {
+				if b == ssa.Value(fv) && (i >= len(fn.FreeVars) || !freeVarOnlyLoaded(fn.FreeVars[i], depth+1)) {
+					return false
+				}
+			}
+		default:
+			return false
+		}
+	}
+	return true
 }
